@@ -212,10 +212,13 @@ theorem mul_le_mul_right_iff (x y U : Rat) (hU : 0 < U) : x ≤ y ↔ x * U ≤ 
   rw [← Rat.not_lt, ← Rat.not_lt (a := y * U)]
   exact not_congr (Rat.mul_lt_mul_right hU).symm
 
-/-- pure order fact behind `clamp`: the coded cascade (with the CSS guard `MAX ≤ MIN → MIN`) is
-    `max(MIN, min(VAL, MAX))`. -/
+theorem mul_lt_mul_right_iff (x y U : Rat) (hU : 0 < U) : x < y ↔ x * U < y * U :=
+  (Rat.mul_lt_mul_right hU).symm
+
+/-- pure order fact behind `clamp`: the coded cascade (`VAL ≤ MIN ∨ MAX < MIN → MIN; VAL ≥ MAX → MAX;
+    VAL`) is `max(MIN, min(VAL, MAX))`. -/
 theorem clamp_cascade (A B C : Rat) :
-    (if B ≤ A then A else if C ≤ A then A else if B ≥ C then C else B) = rmax A (rmin B C) := by
+    (if B ≤ A then A else if C < A then A else if B ≥ C then C else B) = rmax A (rmin B C) := by
   unfold rmax rmin; grind
 
 theorem clampReduce_value (ρ : Env) (hw : ρ.wf) (cfg : Cfg) (hcss : cfg.clampCss = true) (mn v mx r : Num)
@@ -229,21 +232,32 @@ theorem clampReduce_value (ρ : Env) (hw : ρ.wf) (cfg : Cfg) (hcss : cfg.clampC
     have e2 := convert_value ρ mx.n mx' mx.u v.u
       (compatible_trans _ _ _ (compatible_symm _ _ h2) h1) c2
     have hU := unitVal_pos ρ hw v.u
+    have hUm := unitVal_pos ρ hw mn.u
     rw [← clamp_cascade]
-    simp only [Num.val, ← e1, ← e2]
-    simp only [hcss, Bool.true_and, decide_eq_true_eq] at h
     have l1 := mul_le_mul_right_iff v.n mn' _ hU
-    have l2 := mul_le_mul_right_iff mx' mn' _ hU
     have l3 := mul_le_mul_right_iff mx' v.n _ hU
+    simp only [Num.val]
     by_cases c1 : v.n ≤ mn'
-    · rw [if_pos c1] at h; cases h; rw [if_pos (l1.mp c1)]; exact e1.symm
-    · rw [if_neg c1] at h; rw [if_neg (fun x => c1 (l1.mpr x))]
-      by_cases c2 : mx' ≤ mn'
-      · rw [if_pos c2] at h; cases h; rw [if_pos (l2.mp c2)]; exact e1.symm
-      · rw [if_neg c2] at h; rw [if_neg (fun x => c2 (l2.mpr x))]
-        by_cases c3 : v.n ≥ mx'
-        · rw [if_pos c3] at h; cases h; rw [if_pos (l3.mp c3)]; exact e2.symm
-        · rw [if_neg c3] at h; cases h; rw [if_neg (fun x => c3 (l3.mpr x))]
+    · rw [if_pos c1] at h; cases h
+      rw [if_pos (by rw [← e1]; exact l1.mp c1)]
+    · rw [if_neg c1] at h
+      rw [if_neg (by rw [← e1]; exact fun x => c1 (l1.mpr x))]
+      simp only [hcss, if_true] at h
+      split at h
+      · rename_i mxm c3
+        have e3 := convert_value ρ mx.n mxm mx.u mn.u (compatible_symm _ _ h2) c3
+        have l2 := mul_lt_mul_right_iff mxm mn.n _ hUm
+        by_cases c2 : mxm < mn.n
+        · rw [if_pos c2] at h; cases h
+          rw [if_pos (by rw [← e3]; exact l2.mp c2)]
+        · rw [if_neg c2] at h
+          rw [if_neg (by rw [← e3]; exact fun x => c2 (l2.mpr x))]
+          by_cases c4 : v.n ≥ mx'
+          · rw [if_pos c4] at h; cases h
+            rw [if_pos (by rw [← e2]; exact l3.mp c4)]
+          · rw [if_neg c4] at h; cases h
+            rw [if_neg (by rw [← e2]; exact fun x => c4 (l3.mpr x))]
+      · cases h
   · cases h
 
 theorem clampReduce_no_panic (cfg : Cfg) (mn v mx : Num)
@@ -253,7 +267,10 @@ theorem clampReduce_no_panic (cfg : Cfg) (mn v mx : Num)
   have s1 := convert_isSome_of_comparable mn.n mn.u v.u (compatible_comparable _ _ h1)
   have s2 := convert_isSome_of_comparable mx.n mx.u v.u
     (compatible_comparable _ _ (compatible_trans _ _ _ (compatible_symm _ _ h2) h1))
-  cases c1 : convert mn.n mn.u v.u <;> cases c2 : convert mx.n mx.u v.u <;> simp_all
+  have s3 := convert_isSome_of_comparable mx.n mx.u mn.u
+    (compatible_comparable _ _ (compatible_symm _ _ h2))
+  cases c1 : convert mn.n mn.u v.u <;> cases c2 : convert mx.n mx.u v.u <;>
+    cases c3 : convert mx.n mx.u mn.u <;> simp_all
   repeat' split
   all_goals simp
 
